@@ -431,12 +431,20 @@ def vid(v):
     return "+".join(s.id for s in v)
 
 
-def evaluate(v, per_file, out: Path, props):
+def evaluate(v, per_file, out: Path, props, tests=True):
     name = vid(v)
     scratch = Path(tempfile.mkdtemp(prefix="mm-", dir="/tmp"))
     res = {"id": name}
     try:
-        subprocess.run(f"cd {REPO} && git archive HEAD | tar -x -C {scratch}", shell=True, check=True)
+        # the working tree as it stands (not the last commit): the package, its metadata and, when the transformer is to be
+        # sanity-checked by the project's tests, the tests
+        shutil.copytree(REPO / "src", scratch / "src", ignore=shutil.ignore_patterns("__pycache__", "*.pyc"))
+        for extra in ("pyproject.toml", *(["tests"] if tests else [])):
+            src_ = REPO / extra
+            if src_.is_dir():
+                shutil.copytree(src_, scratch / extra, ignore=shutil.ignore_patterns("__pycache__", "*.pyc"))
+            elif src_.exists():
+                shutil.copy(src_, scratch / extra)
         rel = v[0].rel
         text = per_file[rel][0]
         try:
@@ -446,12 +454,19 @@ def evaluate(v, per_file, out: Path, props):
             return res
         (scratch / rel).write_text(new)
         env = dict(os.environ, PYTHONPATH=str(scratch / "src"), PYTHONDONTWRITEBYTECODE="1")
-        r = subprocess.run([PY, "-m", "pytest", "-q", "-p", "no:cacheprovider", "-x"], cwd=scratch, env=env, capture_output=True, text=True, timeout=900)
-        res["tests_rc"] = r.returncode
-        if r.returncode != 0:
-            res["tests_tail"] = (r.stdout + r.stderr)[-600:]
-            return res
-        r = subprocess.run([str(VERIF / "check"), props or "all", "--root", str(scratch), "--no-evidence"], cwd=VERIF, capture_output=True, text=True, timeout=7200)
+        if tests:
+            r = subprocess.run([PY, "-m", "pytest", "-q", "-p", "no:cacheprovider", "-x"], cwd=scratch, env=env, capture_output=True, text=True, timeout=900)
+            res["tests_rc"] = r.returncode
+            if r.returncode != 0:
+                res["tests_tail"] = (r.stdout + r.stderr)[-600:]
+                return res
+        else:
+            try:
+                compile(new, rel, "exec")
+            except SyntaxError as e_:
+                res["skipped"] = f"SyntaxError: {e_}"
+                return res
+        r = subprocess.run([str(VERIF / "check"), props or "all", "--root", str(scratch), "--no-evidence", *(["--tier", "quick"] if props else [])], cwd=VERIF, capture_output=True, text=True, timeout=7200)
         o = r.stdout + r.stderr
         alarms, errors = {}, {}
         lines = o.splitlines()
@@ -470,6 +485,51 @@ def evaluate(v, per_file, out: Path, props):
     finally:
         shutil.rmtree(scratch, ignore_errors=True)
     return res
+
+
+def sample_for(prop: str, root: str, n: int = 48, seed: int = 0, jobs: int = 8, files=None):
+    """Thorough-tier hook: `n` seeded variants of the tree at `root` (sites in `files` when given, else anywhere in the package),
+    compiled only (no tests are run), each checked with the one property `prop`.
+    -> {"variants": k, "silent": a, "no_verdict": b, "false_alarms": [(variant id, first finding)], "kinds": {...}}"""
+    global REPO
+    old_repo = REPO
+    REPO = Path(root)
+    try:
+        per_file = all_sites()
+        rnd = random.Random(f"{prop}:{seed}")
+        singles = [s for rel, (_, ss) in sorted(per_file.items()) for s in ss if not files or any(rel.endswith(f) or f.endswith(rel) for f in files)]
+        if len(singles) < n:
+            singles = [s for _, (_, ss) in sorted(per_file.items()) for s in ss]
+        # spread over the kinds of transformation
+        by_kind = {}
+        for s_ in singles:
+            by_kind.setdefault(s_.t, []).append(s_)
+        pick = []
+        kinds = sorted(by_kind)
+        while len(pick) < n and any(by_kind.values()):
+            for k in kinds:
+                if by_kind[k] and len(pick) < n:
+                    pick.append(by_kind[k].pop(rnd.randrange(len(by_kind[k]))))
+        out_dir = Path(tempfile.mkdtemp(prefix="mm-out-", dir="/tmp"))
+        try:
+            with ThreadPoolExecutor(max(1, jobs)) as ex:
+                results = list(ex.map(lambda v: evaluate([v], per_file, out_dir, prop, tests=False), pick))
+        finally:
+            shutil.rmtree(out_dir, ignore_errors=True)
+        info = {"variants": len(results), "silent": 0, "no_verdict": 0, "not_expressible": 0, "false_alarms": [], "kinds": {}}
+        for v, r in zip(pick, results):
+            info["kinds"][v.t] = info["kinds"].get(v.t, 0) + 1
+            if r.get("skipped") or r.get("error"):
+                info["not_expressible"] += 1
+            elif r.get("alarms"):
+                info["false_alarms"].append((r["id"], next(iter(r["alarms"].values()))[0][:200]))
+            elif r.get("no_verdict"):
+                info["no_verdict"] += 1
+            else:
+                info["silent"] += 1
+        return info
+    finally:
+        REPO = old_repo
 
 
 def main():
